@@ -501,7 +501,17 @@ func callSSA(i *interpreter, caller *frame, callpos token.Pos, fn *ssa.Function,
 			panic(pathEnd{kind: Inconclusive, msg: "unsupported external function: " + name})
 		}
 		i.stdDepth++
-		defer func() { i.stdDepth-- }()
+		defer func() {
+			i.stdDepth--
+			// a library body that uses something the engine has no model for (unsafe casts, assembly stubs) is a
+			// modelling gap on this path, not an engine defect
+			if r := recover(); r != nil {
+				if e, ok := r.(engineErr); ok && i.stdDepth == 0 {
+					panic(pathEnd{kind: Inconclusive, msg: "library function " + fn.String() + " cannot be interpreted symbolically: " + string(e)})
+				}
+				panic(r)
+			}
+		}()
 	} else if ext := overrides[fn.String()]; ext != nil {
 		return ext(fr, args)
 	}
